@@ -13,12 +13,16 @@
 package chain
 
 import (
+	"context"
 	"crypto/sha256"
 	"encoding/hex"
 	"encoding/json"
 	"fmt"
 	"math/rand"
+	"regexp"
 	"sort"
+	"strconv"
+	"strings"
 	"time"
 
 	"cosmossdk.io/depinject"
@@ -60,6 +64,9 @@ import (
 	tokentypes "mods.irisnet.org/modules/token/types"
 	"mods.irisnet.org/simapp"
 )
+
+// DoomedPrefix marks a recorded authority entry that is a doomed proposal (see Authority).
+const DoomedPrefix = "DOOMED:"
 
 const (
 	ChainID     = "verif-1"
@@ -134,6 +141,8 @@ type Tx struct {
 	Signers []string // optional additional signers
 	Msgs    []sdk.Msg
 	Tag     any // opaque, returned in the result
+	// NoBundle keeps this transaction out of bundles (Chain.BundlePct).
+	NoBundle bool
 }
 
 // TxResult is what the chain did with a transaction.
@@ -152,6 +161,15 @@ type TxResult struct {
 	TxHash    string
 	// State is the projection after this transaction (nil if no projector).
 	State any
+	// Bundle > 1: this transaction was delivered as member BundlePos (0-based) of ONE
+	// real transaction carrying the messages of Bundle consecutive Tx entries of the
+	// same signer (Chain.BundlePct).  Aborted: the real transaction failed and this
+	// member's messages either ran and were rolled back with it or never ran; the
+	// member that made it fail is reported as Aborted too unless it was the first one
+	// (then its pre-state is the pre-transaction state and it is an ordinary rejection).
+	Bundle    int
+	BundlePos int
+	Aborted   bool
 }
 
 // BlockResult is what a block did.
@@ -181,8 +199,28 @@ type Chain struct {
 	Genesis []byte
 	opts    Options
 
-	snaps   map[string]any
-	rec     *recorder
+	// BundlePct > 0: RunBlock merges runs of consecutive single-signer transactions of one
+	// signer (up to three) into one real multi-message transaction with this probability
+	// (percent) per junction; the decision is a hash of the block's shape (height, position,
+	// signer, message types), so that re-executing a recorded history bundles identically.
+	// Set from the driver cfg entry bundle=<pct>.  The state between the messages of a
+	// successful bundle is observed through the message router's circuit-breaker callback
+	// (called before every message on the transaction's own store branch), so every member
+	// still gets its own result and post-state.
+	BundlePct int
+	// BundleHook, when set, is told when the first message of a bundled transaction is about
+	// to run ("start") and when a bundled transaction has failed as a whole ("abort", called
+	// at the end of that transaction, before anything else is observed), so that a driver
+	// whose projection has side effects (naming of ids in order of appearance) can checkpoint
+	// and restore them.
+	BundleHook func(phase string)
+	openBundle string // hash of the bundled transaction whose messages are running
+	lastAuth   map[string]sdk.Msg // last successful authority message per type (proposal noise)
+	propNoise  bool
+
+	snaps    map[string]any
+	preSnaps map[string][]any // bundled tx hash -> projection before each of its messages
+	rec      *recorder
 	snapErr string
 	halted  bool
 }
@@ -241,6 +279,7 @@ func newApp(c *Chain, db *dbm.MemDB, opts Options) *simapp.SimApp {
 	}
 	if !opts.NoPostHandler {
 		app.SetPostHandler(c.postHandler)
+		app.MsgServiceRouter().SetCircuit(msgObserver{c})
 	}
 	if err := app.LoadLatestVersion(); err != nil {
 		panic(err)
@@ -248,10 +287,76 @@ func newApp(c *Chain, db *dbm.MemDB, opts Options) *simapp.SimApp {
 	return app
 }
 
+// msgObserver is installed as the message router's circuit breaker.  It allows everything;
+// for the messages of a bundled transaction it records the projection that holds BEFORE the
+// message (= after the previous message of the same transaction).
+type msgObserver struct{ c *Chain }
+
+func (o msgObserver) IsAllowed(goCtx context.Context, _ string) (bool, error) {
+	c := o.c
+	if c.Project == nil || len(c.preSnaps) == 0 {
+		return true, nil
+	}
+	ctx := sdk.UnwrapSDKContext(goCtx)
+	if ctx.ExecMode() != sdk.ExecModeFinalize || len(ctx.TxBytes()) == 0 {
+		return true, nil
+	}
+	sum := sha256.Sum256(ctx.TxBytes())
+	key := hex.EncodeToString(sum[:])
+	lst, ok := c.preSnaps[key]
+	if !ok {
+		return true, nil
+	}
+	func() {
+		defer func() {
+			if r := recover(); r != nil {
+				c.snapErr = fmt.Sprint("projection panic (bundle): ", r)
+			}
+		}()
+		c.closeBundle(key)
+		if len(lst) == 0 {
+			c.openBundle = key
+			if c.BundleHook != nil {
+				c.BundleHook("start")
+			}
+		}
+		c.preSnaps[key] = append(lst, c.Project(ctx.WithGasMeter(storetypes.NewInfiniteGasMeter())))
+	}()
+	return true, nil
+}
+
+// closeBundle: a bundled transaction that never reached the post handler (it panicked) is
+// known to have failed as soon as anything else is observed.
+func (c *Chain) closeBundle(now string) {
+	if c.openBundle != "" && c.openBundle != now {
+		c.openBundle = ""
+		if c.BundleHook != nil {
+			c.BundleHook("abort")
+		}
+	}
+}
+
+// MsgIndex returns the index of the message of a bundled transaction that is executing in
+// ctx (-1 when ctx does not belong to a bundled transaction).
+func (c *Chain) MsgIndex(ctx sdk.Context) int {
+	if len(c.preSnaps) == 0 || len(ctx.TxBytes()) == 0 {
+		return -1
+	}
+	sum := sha256.Sum256(ctx.TxBytes())
+	lst, ok := c.preSnaps[hex.EncodeToString(sum[:])]
+	if !ok {
+		return -1
+	}
+	return len(lst) - 1
+}
+
 func (c *Chain) postHandler(ctx sdk.Context, tx sdk.Tx, simulate, success bool) (sdk.Context, error) {
 	if simulate {
 		return ctx, nil
 	}
+	sum := sha256.Sum256(ctx.TxBytes())
+	key := hex.EncodeToString(sum[:])
+	c.closeBundle(key)
 	var snap any
 	if success && c.Project != nil {
 		func() {
@@ -263,14 +368,29 @@ func (c *Chain) postHandler(ctx sdk.Context, tx sdk.Tx, simulate, success bool) 
 			snap = c.Project(ctx.WithGasMeter(storetypes.NewInfiniteGasMeter()))
 		}()
 	}
-	sum := sha256.Sum256(ctx.TxBytes())
-	c.snaps[hex.EncodeToString(sum[:])] = snap
+	if c.openBundle == key {
+		c.openBundle = ""
+		if !success && c.BundleHook != nil {
+			c.BundleHook("abort")
+		}
+	}
+	c.snaps[key] = snap
 	return ctx, nil
 }
 
 // New builds a chain, runs InitChain and an empty block 1.
 func New(opts Options) *Chain {
-	c := &Chain{Accts: map[string]*Account{}, opts: opts}
+	c := &Chain{Accts: map[string]*Account{}, opts: opts, propNoise: true}
+	for _, kv := range strings.Split(DriverCfg, ",") {
+		if kv == "propnoise=0" {
+			c.propNoise = false
+		}
+		if strings.HasPrefix(kv, "bundle=") {
+			if v, err := strconv.Atoi(kv[len("bundle="):]); err == nil {
+				c.BundlePct = v
+			}
+		}
+	}
 	c.DB = opts.DB
 	if c.DB == nil {
 		c.DB = dbm.NewMemDB()
@@ -473,6 +593,57 @@ func (c *Chain) probeTx(seqs map[string]uint64) []byte {
 	return bz
 }
 
+// PlanBlock says how RunBlock will deliver txs in the next block: which of them fail
+// ValidateBasic (not delivered, no sequence number consumed) and how the others are grouped
+// into real transactions (singletons unless BundlePct > 0).  Deterministic in the block's
+// shape, so a driver can predict transaction hashes.
+func (c *Chain) PlanBlock(txs []Tx) (vbErrs []error, groups [][]int) {
+	h := c.Height + 1
+	vbErrs = make([]error, len(txs))
+	for i, tx := range txs {
+		for _, m := range tx.Msgs {
+			if vb, ok := m.(sdk.HasValidateBasic); ok {
+				if err := vb.ValidateBasic(); err != nil {
+					vbErrs[i] = err
+					break
+				}
+			}
+		}
+	}
+	bundling := c.Project != nil && !c.opts.NoPostHandler && c.BundlePct > 0
+	join := func(i, j int) bool {
+		d := sha256.Sum256([]byte(fmt.Sprintf("bundle|%d|%d|%d|%s|%s|%s", h, i, len(txs), txs[i].Signer,
+			sdk.MsgTypeURL(txs[i].Msgs[0]), sdk.MsgTypeURL(txs[j].Msgs[0]))))
+		return int(d[0])%100 < c.BundlePct
+	}
+	for i := 0; i < len(txs); i++ {
+		if vbErrs[i] != nil {
+			continue
+		}
+		g := []int{i}
+		for bundling && len(txs[i].Signers) == 0 && !txs[i].NoBundle && len(g) < 3 {
+			j := g[len(g)-1] + 1
+			if j >= len(txs) || vbErrs[j] != nil || txs[j].Signer != txs[i].Signer || len(txs[j].Signers) != 0 ||
+				txs[j].NoBundle || len(txs[i].Msgs) == 0 || len(txs[j].Msgs) == 0 || !join(j-1, j) {
+				break
+			}
+			g = append(g, j)
+		}
+		groups = append(groups, g)
+		i = g[len(g)-1]
+	}
+	return vbErrs, groups
+}
+
+// MergeTx is the real transaction RunBlock builds for a group of PlanBlock.
+func MergeTx(txs []Tx, members []int) Tx {
+	merged := Tx{Signer: txs[members[0]].Signer, Signers: txs[members[0]].Signers}
+	for _, m := range members {
+		merged.Msgs = append(merged.Msgs, txs[m].Msgs...)
+	}
+	return merged
+}
+
 // RunBlock executes one block at height c.Height+1 whose time is dt after the
 // previous block's time.  Transactions whose messages fail ValidateBasic are
 // reported as rejected without being delivered (exactly what baseapp does
@@ -494,36 +665,53 @@ func (c *Chain) RunBlock(dt time.Duration, txs []Tx) (res BlockResult) {
 		idx = append(idx, -1)
 	}
 	hashOf := func(bz []byte) string { s := sha256.Sum256(bz); return hex.EncodeToString(s[:]) }
+	// validate every transaction's messages first (baseapp does it before the ante handler)
+	vbErrs, groups := c.PlanBlock(txs)
 	for i, tx := range txs {
 		res.Txs[i].Tag = tx.Tag
 		res.Txs[i].Stage = "deliver"
-		var vbErr error
-		for _, m := range tx.Msgs {
-			if vb, ok := m.(sdk.HasValidateBasic); ok {
-				if err := vb.ValidateBasic(); err != nil {
-					vbErr = err
-					break
-				}
-			}
-		}
-		if vbErr != nil {
+		if vbErrs[i] != nil {
 			res.Txs[i].Stage = "validate_basic"
-			res.Txs[i].Log = vbErr.Error()
+			res.Txs[i].Log = vbErrs[i].Error()
 			res.Txs[i].Code = 1
-			continue
 		}
-		bz, err := c.BuildTx(tx, seqs)
+	}
+	// real transactions: one per Tx, or one per bundle of consecutive Tx of one signer
+	type realTx struct {
+		members []int // indices into txs
+		counts  []int // number of messages of each member
+	}
+	var reals []realTx
+	c.preSnaps = map[string][]any{}
+	for _, members := range groups {
+		i := members[0]
+		g := realTx{members: members}
+		for _, m := range members {
+			g.counts = append(g.counts, len(txs[m].Msgs))
+		}
+		_ = i
+		bz, err := c.BuildTx(MergeTx(txs, g.members), seqs)
 		if err != nil {
-			res.Txs[i].Stage = "build"
-			res.Txs[i].Log = err.Error()
-			res.Txs[i].Code = 1
+			for _, m := range g.members {
+				res.Txs[m].Stage = "build"
+				res.Txs[m].Log = err.Error()
+				res.Txs[m].Code = 1
+			}
 			continue
 		}
-		res.Txs[i].TxBytes = bz
-		sum := sha256.Sum256(bz)
-		res.Txs[i].TxHash = hex.EncodeToString(sum[:])
+		txh := hashOf(bz)
+		for k, m := range g.members {
+			res.Txs[m].TxBytes = bz
+			res.Txs[m].TxHash = txh
+			res.Txs[m].Bundle = len(g.members)
+			res.Txs[m].BundlePos = k
+		}
+		if len(g.members) > 1 {
+			c.preSnaps[txh] = []any{}
+		}
 		raw = append(raw, bz)
-		idx = append(idx, i)
+		idx = append(idx, len(reals))
+		reals = append(reals, g)
 	}
 	c.snaps = map[string]any{}
 	c.snapErr = ""
@@ -553,6 +741,7 @@ func (c *Chain) RunBlock(dt time.Duration, txs []Tx) (res BlockResult) {
 			res.HaltMsg = "Commit: " + err.Error()
 		}
 	}()
+	c.closeBundle("")
 	if res.Halt {
 		c.halted = true
 		if c.rec != nil {
@@ -572,7 +761,7 @@ func (c *Chain) RunBlock(dt time.Duration, txs []Tx) (res BlockResult) {
 	// distribute results; the post handler recorded a projection per tx hash
 	// (only for transactions whose messages all succeeded).  Every transaction —
 	// delivered or rejected before delivery — gets the state that holds after it.
-	resOf := map[int]*abci.ExecTxResult{}
+	realRes := map[int]*abci.ExecTxResult{}
 	var last any
 	for k, r := range fin.TxResults {
 		if idx[k] == -1 {
@@ -583,12 +772,25 @@ func (c *Chain) RunBlock(dt time.Duration, txs []Tx) (res BlockResult) {
 			last = res.BeginState
 			continue
 		}
-		resOf[idx[k]] = r
+		realRes[idx[k]] = r
+	}
+	// member index -> (real transaction, position)
+	type where struct{ g, pos int }
+	at := map[int]where{}
+	for gi, g := range reals {
+		for k, m := range g.members {
+			at[m] = where{gi, k}
+		}
 	}
 	for i := range res.Txs {
 		tr := &res.Txs[i]
-		r, delivered := resOf[i]
-		if delivered {
+		w, delivered := at[i]
+		if !delivered {
+			tr.State = last
+			continue
+		}
+		g, r := reals[w.g], realRes[w.g]
+		if len(g.members) == 1 {
 			tr.OK = r.Code == 0
 			tr.Code, tr.Codespace, tr.Log, tr.Panic = r.Code, r.Codespace, r.Log, r.Code == PanicCode
 			tr.Data = r.Data
@@ -602,7 +804,49 @@ func (c *Chain) RunBlock(dt time.Duration, txs []Tx) (res BlockResult) {
 					last = snap
 				}
 			}
+			tr.State = last
+			continue
 		}
+		// a member of a bundle
+		first := 0 // index of this member's first message within the real transaction
+		for k := 0; k < w.pos; k++ {
+			first += g.counts[k]
+		}
+		n := g.counts[w.pos]
+		tr.Code, tr.Codespace, tr.Log, tr.Panic = r.Code, r.Codespace, r.Log, r.Code == PanicCode
+		if r.Code == 0 {
+			tr.OK = true
+			var tmd sdk.TxMsgData
+			if err := tmd.Unmarshal(r.Data); err == nil && len(tmd.MsgResponses) >= first+n {
+				tr.MsgResps = tmd.MsgResponses[first : first+n]
+			}
+			tr.Events = eventsOfMsgs(r.Events, first, n)
+			pre := c.preSnaps[tr.TxHash]
+			total := 0
+			for _, cnt := range g.counts {
+				total += cnt
+			}
+			if len(pre) != total {
+				panic(fmt.Sprintf("bundle observation: %d pre-message projections for %d messages", len(pre), total))
+			}
+			if w.pos == len(g.members)-1 {
+				if snap := c.snaps[tr.TxHash]; snap != nil {
+					last = snap
+				}
+			} else {
+				last = pre[first+n] // the state before the next member's first message
+			}
+			tr.State = last
+			continue
+		}
+		// the real transaction failed: everything it did was rolled back
+		failing := -1
+		if mm := msgIndexRe.FindStringSubmatch(r.Log); mm != nil {
+			if v, err := strconv.Atoi(mm[1]); err == nil {
+				failing = v
+			}
+		}
+		tr.Aborted = !(w.pos == 0 && failing >= 0 && failing < n)
 		tr.State = last
 	}
 	if c.Project != nil {
@@ -613,6 +857,31 @@ func (c *Chain) RunBlock(dt time.Duration, txs []Tx) (res BlockResult) {
 	}
 	c.refreshAccounts()
 	return res
+}
+
+var msgIndexRe = regexp.MustCompile(`message index: (\d+)`)
+
+// eventsOfMsgs returns the events of a transaction result that belong to messages
+// first..first+n-1 (attribute msg_index), with the index rebased to the member.
+func eventsOfMsgs(evs []abci.Event, first, n int) []abci.Event {
+	var out []abci.Event
+	for _, e := range evs {
+		keep := false
+		ne := abci.Event{Type: e.Type}
+		for _, a := range e.Attributes {
+			if a.Key == "msg_index" {
+				if v, err := strconv.Atoi(a.Value); err == nil && v >= first && v < first+n {
+					keep = true
+					a.Value = strconv.Itoa(v - first)
+				}
+			}
+			ne.Attributes = append(ne.Attributes, a)
+		}
+		if keep {
+			out = append(out, ne)
+		}
+	}
+	return out
 }
 
 func blockHash(h int64) []byte {
@@ -632,18 +901,61 @@ func (c *Chain) Authority(msg sdk.Msg) (ok bool, panicked bool, log string) {
 	if c.rec != nil {
 		c.rec.authority(c, msg)
 	}
-	handler := c.App.MsgServiceRouter().Handler(msg)
-	if handler == nil {
-		return false, false, "no handler"
+	ok, panicked, log = c.authorityBatch([]sdk.Msg{msg})
+	// Proposal noise (on unless the driver cfg says propnoise=0): after an authority message,
+	// the PREVIOUS authority message of the same type is executed once more as the first
+	// message of a two-message proposal whose second message is bound to fail — the way x/gov
+	// executes a passed proposal: all messages on one cache branch, written only if every one
+	// succeeds.  The branch is discarded, so on a correct chain this is a no-op that no trace
+	// shows; code that keeps anything outside the committed store sees a handler that ran and
+	// was rolled back.  Recorded, so replicas replay it.
+	url := sdk.MsgTypeURL(msg)
+	if prev, has := c.lastAuth[url]; has && c.propNoise && !panicked {
+		c.DoomedProposal(prev)
 	}
+	if ok {
+		if c.lastAuth == nil {
+			c.lastAuth = map[string]sdk.Msg{}
+		}
+		c.lastAuth[url] = msg
+	}
+	return ok, panicked, log
+}
+
+// DoomedProposal executes [msg, <a message that cannot succeed>] as one proposal; nothing is
+// written.
+func (c *Chain) DoomedProposal(msg sdk.Msg) {
+	gov := authtypes.NewModuleAddress(govtypes.ModuleName)
+	huge, _ := sdkmath.NewIntFromString("1000000000000000000000000000000000000000")
+	poison := banktypes.NewMsgSend(gov, gov, sdk.NewCoins(sdk.NewCoin(ProbeDenom, huge)))
+	if c.rec != nil {
+		c.rec.doomed(c, msg)
+	}
+	func() {
+		defer func() { _ = recover() }()
+		if ok, _, _ := c.authorityBatch([]sdk.Msg{msg, poison}); ok {
+			panic("harness: the doomed proposal succeeded")
+		}
+	}()
+}
+
+// authorityBatch runs msgs on one cache branch of the committed state; written only if every
+// message succeeds.
+func (c *Chain) authorityBatch(msgs []sdk.Msg) (ok bool, panicked bool, log string) {
 	ctx, write := c.Ctx().CacheContext()
 	defer func() {
 		if r := recover(); r != nil {
 			ok, panicked, log = false, true, fmt.Sprint("panic: ", r)
 		}
 	}()
-	if _, err := handler(ctx, msg); err != nil {
-		return false, false, err.Error()
+	for _, msg := range msgs {
+		handler := c.App.MsgServiceRouter().Handler(msg)
+		if handler == nil {
+			return false, false, "no handler"
+		}
+		if _, err := handler(ctx, msg); err != nil {
+			return false, false, err.Error()
+		}
 	}
 	write()
 	return true, false, ""
@@ -770,6 +1082,7 @@ func (c *Chain) RunRawBlock(height int64, t time.Time, raw [][]byte) (res RawRes
 		res.AppHash = fin.AppHash
 		res.Txs = fin.TxResults
 	}()
+	c.closeBundle("")
 	if res.Halt {
 		c.halted = true
 		return res
@@ -780,10 +1093,25 @@ func (c *Chain) RunRawBlock(height int64, t time.Time, raw [][]byte) (res RawRes
 
 // AuthorityJSON replays a recorded authority message (codec JSON of the Any).
 func (c *Chain) AuthorityJSON(js string) (ok bool, panicked bool, log string) {
+	if strings.HasPrefix(js, DoomedPrefix) {
+		var msg sdk.Msg
+		if err := c.App.AppCodec().UnmarshalInterfaceJSON([]byte(js[len(DoomedPrefix):]), &msg); err != nil {
+			return false, false, "decode: " + err.Error()
+		}
+		rec := c.rec
+		c.rec = nil
+		c.DoomedProposal(msg)
+		c.rec = rec
+		return false, false, "doomed"
+	}
 	var msg sdk.Msg
 	if err := c.App.AppCodec().UnmarshalInterfaceJSON([]byte(js), &msg); err != nil {
 		return false, false, "decode: " + err.Error()
 	}
+	// a replayed recording carries its own doomed proposals
+	noise := c.propNoise
+	c.propNoise = false
+	defer func() { c.propNoise = noise }()
 	return c.Authority(msg)
 }
 
